@@ -272,6 +272,9 @@ def monitors_child(rec):
         u = nrng.uniform(0.001, 0.999, size=n)
         if rng.random() < 0.3:
             u = np.round(u, 1).clip(0.05, 0.95)
+        elif rng.random() < 0.3 and n >= 2:
+            # values very close to the ends of the open interval (over-confident forecasts)
+            u[0] = rng.choice([1e-12, 2e-7, 1e-300]); u[-1] = 1 - rng.choice([1e-12, 1e-7, 1e-15])
         us = np.sort(u); i = np.arange(1, n + 1)
         w2 = 1 / (12 * n) + np.sum((us - (2 * i - 1) / (2 * n)) ** 2)
         a2 = -n - np.sum((2 * i - 1) * (np.log(us) + np.log(1 - us[::-1]))) / n
